@@ -31,3 +31,6 @@ Proof. split; reflexivity. Qed.
 Lemma bridge_reaper_calls :
   gen_reaper_call_raw = (true, true, true, true) /\ gen_reaper_call_to_ds = (true, true, true, true).
 Proof. split; reflexivity. Qed.
+
+Lemma bridge_reference_result : gen_reference_result_is_pinned = true.
+Proof. reflexivity. Qed.
